@@ -26,6 +26,14 @@ INJECT = {
     "builder": [(r"\nmod exec \{", "h_exec.rs"), (r"\nmod pipeline \{", "h_pipeline.rs")],
     "os_common": [],
 }
+# Size cuts applied to the mounted copy only (never to /repo): (file, regex, replacement, why).
+# Each is a stated bound of the claim; if the anchor is gone the copy is mounted unchanged.
+CUTS = [
+    ("communicate", r"let mut buf = &mut \[0u8; 4096\]\[\.\.\];", "let mut buf = &mut [0u8; 8][..];",
+     "do_read's 4096-byte stack buffer shrunk to 8 bytes: a 4096-byte array per read call makes the SAT instance exceed 26 GB (measured); transfers in the model are <= 3 bytes anyway, and the clipping logic against the size limit is unchanged"),
+]
+APPLIED_CUTS = []
+
 TAIL = {
     "posix": "h_posix.rs",
     "popen": "h_popen.rs",
@@ -47,6 +55,7 @@ def _write_if_changed(path, text):
 
 def generate():
     os.makedirs(GEN, exist_ok=True)
+    del APPLIED_CUTS[:]
     lib = open(REPO + "/src/lib.rs").read()
     out = []
     skip_tests = False
@@ -92,6 +101,12 @@ def generate():
             # a module this framework does not know: mount verbatim
             _write_if_changed(GEN + "/%s.rs" % name, text)
             continue
+        for cname, rx, repl, why in CUTS:
+            if cname == name:
+                text2, n = re.subn(rx, repl, text)
+                if n == 1:
+                    text = text2
+                    APPLIED_CUTS.append({"file": "src/%s.rs" % name, "from": rx, "to": repl, "why": why})
         for anchor, hfile in INJECT[name]:
             ms = list(re.finditer(anchor, text))
             if len(ms) != 1:
@@ -103,7 +118,7 @@ def generate():
                 text += "\n"
             text += 'include!("%s/%s");\n' % (HDIR, TAIL[name])
         _write_if_changed(GEN + "/%s.rs" % name, text)
-    return {"modules": mods, "source_sha256": digest.hexdigest()}
+    return {"modules": mods, "source_sha256": digest.hexdigest(), "cuts": list(APPLIED_CUTS)}
 
 
 if __name__ == "__main__":
